@@ -410,3 +410,6 @@ K('C12', 'triangulate-given-order-ignored', [(JT, "        tri, cost = self._tri
 K('C12', 'triangulated-without-model-edges', [(JT, "        tri = nx.Graph(self.graph)\n        tri.add_edges_from(edges)", "        tri = nx.Graph()\n        tri.add_edges_from(edges)")], 'elimination-fill-in')
 T('C12', 'schedule-loop-vars-renamed', [(JT, "        for m1 in messages:\n            for m2 in messages:\n                if m1[1] == m2[0] and m1[0] != m2[1]:\n                    edges.add( (m1, m2) )", "        for u in messages:\n            for w in messages:\n                if u[1] == w[0] and u[0] != w[1]:\n                    edges.add( (u, w) )")])
 MUTANTS.append({'prop': 'C12', 'id': 'reformatted-tree', 'kind': 'T', 'edits': 'REFORMAT'})
+K('C16', 'lbp-identity-across-containers', [(FG, "                for v in cl:\n                    complement = [var for var in cl if var is not v]", "                for v in [a for a in self.domain if a in cl]:\n                    complement = [var for var in cl if var is not v]")], 'identity-compare')
+T('C16', 'lbp-equality-compare', [(FG, "                    complement = [var for var in cl if var is not v]", "                    complement = [var for var in cl if var != v]")])
+T('C14', 'sub-via-neg', [(F, "        other = Factor(other.domain, np.where(other.values==-np.inf, 0, -other.values))\n        return self + other", "        neg = Factor(other.domain, np.where(other.values==-np.inf, 0, -other.values))\n        return self + neg")])
